@@ -1070,9 +1070,9 @@ def filter_includes(
         omit_serialization_support = env.globals["nunavut"].support["omit"]
     except KeyError:
         omit_serialization_support = False
-    return IncludeGenerator(language, t, omit_serialization_support).generate_include_filepart_list(
-        language.extension, sort
-    )
+    inc = IncludeGenerator(language, t, omit_serialization_support).generate_include_filepart_list(language.extension, sort)
+    std = language.get_config_value_as_bool("use_standard_types") and getattr(t, "has_fixed_port_id", False)  # std::uint16_t FixedPortId
+    return inc if not std or "<cstdint>" in inc else (sorted(inc + ["<cstdint>"]) if sort else inc + ["<cstdint>"])
 
 
 @template_language_filter(__name__)
